@@ -189,9 +189,28 @@ def _read_inputs(ex, f, c, m, params, fparams=None):
             inp[pn] = c.bind[pn] if not callable(c.bind[pn]) else None
             continue
         v = ex.vars[pn]
+        if pn in getattr(c, "lists3", ()):
+            ev_ = lambda t: int(_num(m.eval(t, model_completion=True)))     # noqa
+            n1 = max(0, min(ev_(ex.entry_heap[(v.t.id, "len")]), 6))
+            out3 = []
+            for i1 in range(n1):
+                n2 = max(0, min(ev_(z3.Select(ex.entry_heap[(v.t.id, "len2")], i1)), 6))
+                row = []
+                for a1 in range(n2):
+                    n3 = max(0, min(ev_(z3.Select(z3.Select(ex.entry_heap[(v.t.id, "ilen3")], i1), a1)), 6))
+                    row.append([ev_(z3.Select(z3.Select(z3.Select(ex.entry_heap[(v.t.id, "elems3")], i1), a1), b1)) for b1 in range(n3)])
+                out3.append(row)
+            inp[pn] = out3
+            continue
         if pn in getattr(c, "lists", ()):
             n_outer = max(0, _num(m.eval(ex.entry_heap[(v.t.id, "len")], model_completion=True)))
-            inp[pn] = [[] for _ in range(n_outer)]      # inner lists start empty (only this case is generated)
+            lst = []
+            for jj in range(n_outer):
+                il = _num(m.eval(z3.Select(ex.entry_heap[(v.t.id, "ilen")], jj), model_completion=True))
+                il = max(0, min(int(il), 8))
+                lst.append([int(_num(m.eval(z3.Select(z3.Select(ex.entry_heap[(v.t.id, "elems")], jj), pp), model_completion=True)))
+                            for pp in range(il)])
+            inp[pn] = lst
             continue
         if pt.kind == "arr":
             a = v.t
@@ -408,7 +427,9 @@ class SpecEval:
             "fsum": lambda f, n: sum(f(i) for i in range(int(n))),
             "lastnz": lambda f, n: max([i for i in range(int(n)) if f(i) != 0], default=-1),
             "log": lambda x: math.log(x) if x > 0 else float("nan"),
-            "rowsum": lambda A, a: int(np.asarray(A)[a].sum()), "mult": lambda L, j, k: list(L[j]).count(k), "floor": math.floor, "fabs": abs, "INT32": 2147483647,
+            "rowsum": lambda A, a: int(np.asarray(A)[a].sum()), "mult": lambda L, j, k: list(L[j]).count(k),
+            "ilen": lambda L, j: len(L[j]), "item": lambda L, j, p_: L[j][p_],
+            "len2": lambda L, i: len(L[i]), "ilen3": lambda L, i, a: len(L[i][a]), "item3": lambda L, i, a, b: L[i][a][b], "floor": math.floor, "fabs": abs, "INT32": 2147483647,
         }
         for g in self.c.ghost:
             ns[g] = (lambda name: (lambda *a: self.ghost(name, a)))(g)
